@@ -338,6 +338,19 @@ def run_complement(prop: str, tier: str, seed: int) -> Dict[str, Any]:
         return {"error": repr(e), "failures": []}
 
 
+def tree_shas() -> Dict[str, str]:
+    """sha256 of every Python file of the package under check (relative path -> digest)"""
+    root = os.environ.get("PYVC_REPO", "/repo")
+    out: Dict[str, str] = {}
+    for d, _, files in os.walk(os.path.join(root, "d42")):
+        for fn in files:
+            if fn.endswith(".py"):
+                pth = os.path.join(d, fn)
+                with open(pth, "rb") as f:
+                    out[os.path.relpath(pth, root)] = hashlib.sha256(f.read()).hexdigest()
+    return out
+
+
 def combined_sha(repo, res: Dict[str, Any], key: str = "relpath") -> str:
     """hash of the verified function's source and of every repository function the executor inlined into it"""
     import hashlib
@@ -535,9 +548,17 @@ def run_check(prop: str, tier: str) -> int:
     # thorough tier: independently of any failing obligation, the bounded native search of the property is run for every
     # function under contract -- a cross-check of specification, engine and code against each other (a hit is a natively
     # failing input, i.e. a violation however the proofs went)
-    if tier == "thorough":
+    # the same searches run in the quick tier when any file of the package differs from the tree the baseline was
+    # recorded on and nothing has been reported yet: a change outside every function under contract (wiring, helpers that
+    # are assumed, error factories, classes the executor models) cannot fail an obligation, but it can be exhibited
+    base_files = baseline.get("_files") or {}
+    cur_files = tree_shas()
+    changed_files = sorted(f for f in set(base_files) | set(cur_files) if base_files.get(f) != cur_files.get(f)) if base_files else []
+    deep = tier == "thorough" or (bool(changed_files) and not violations)
+    if deep:
         seen_fn = set()
-        for f_ in funcs:
+        extra = [{"file": "(call chains)", "qualname": "declarations written as text, every order"}] if prop in ("C10", "C11") else []
+        for f_ in extra + funcs:
             if f_["file"].startswith("<"):
                 continue
             fn_name = f"{f_['file']}:{f_['qualname'].split('@')[0]}"
@@ -547,12 +568,15 @@ def run_check(prop: str, tier: str) -> int:
                 continue
             seen_fn.add(fn_name)
             hit = native_search({"oracle": prop, "function": fn_name, "meta": {}, "active_regions": active_regions})
-            searches.append({"function": fn_name, "found": hit.get("found"), "cases": hit.get("cases"), "tier": "thorough"})
+            searches.append({"function": fn_name, "found": hit.get("found"), "cases": hit.get("cases"),
+                             "tier": "thorough" if tier == "thorough" else "quick (tree differs from the baseline: " + ", ".join(changed_files)[:200] + ")"})
             if hit.get("found"):
                 spec = {"property": prop, "oracle": prop, "obligation": f"thorough native search for {fn_name}", "function": fn_name,
                         "inputs": hit["inputs"], "meta": hit.get("meta", {}),
                         "native": {"reproduced": True, "detail": hit.get("detail", "")}, "found_by": "thorough-tier native search"}
                 violations.append((f"{fn_name}:native-search", write_replay(prop, spec), True))
+                if tier != "thorough":
+                    break          # one natively failing input is enough for the verdict
 
     # bounded complement: the property's native oracle over an enumerated zoo, for the functions the property depends
     # on that are not under contract yet -- a labelled bounded stand-in, never counted among the obligations
@@ -633,6 +657,7 @@ def run_check(prop: str, tier: str) -> int:
         baseline[prop] = sorted(proved_names)
         baseline.setdefault("_sha", {})[prop] = {f"{f['file']}|{f['qualname']}": combined_sha(repo, f, key="file")
                                                  for f in funcs if f["file"] != "<lemma>"}
+        baseline["_files"] = tree_shas()
         with open(BASELINE, "w") as f:
             json.dump(baseline, f, indent=0)
     print(f"{prop}: obligations={n_obl} discharged={n_dis} undecided={len(undecided)} "
